@@ -312,6 +312,8 @@ def nd_setitem(interp, arr, idx, value):
         V = None
     else:
         v = value if type(value) is NDArr else to_ndarr(interp, value)
+        while v.ndim > len(out_shape) and v.shape[0] == 1:  # numpy drops leading axes of length 1 of the assigned value
+            v = NDArr(v.data[0], v.shape[1:], v.dtype)
         tgt = NDArr(_zeros_nested(tuple(out_shape)), tuple(out_shape), "f")
         _, V = _broadcast(tgt, v)
         if V.shape != tuple(out_shape):
@@ -328,10 +330,7 @@ def nd_setitem(interp, arr, idx, value):
             for k in slice_axes:
                 d = d[combo[k]]
             x = d
-        tgt = arr.data
-        for c in coords[:-1]:
-            tgt = tgt[c]
-        tgt[coords[-1]] = _cast_elem(x, arr.dtype)
+        arr.poke(tuple(coords), _cast_elem(x, arr.dtype))  # writes through to the array(s) `arr` is a view of
 
 
 def _zeros_nested(shape):
@@ -414,8 +413,12 @@ def ndarray_attr(interp, a, name):
         return method(lambda: a.copy())
     if name == "tolist":
         return method(lambda: a.copy().data)
-    if name == "flatten" or name == "ravel":
+    if name == "flatten":
         return method(lambda: NDArr(a.flat(), (len(a.flat()),), a.dtype))
+    if name == "ravel":
+        return method(lambda: reshape(a, (-1,)))
+    if name == "view":
+        return method(lambda: reshape(a, a.shape))
     if name == "reshape":
         return method(lambda *shape: reshape(a, shape[0] if len(shape) == 1 and isinstance(shape[0], (tuple, list)) else shape))
     if name == "sum":
@@ -469,7 +472,10 @@ def reshape(a, shape):
             return items[0]
         step = len(items) // sh[0] if sh[0] else 0
         return [build(items[i * step:(i + 1) * step], sh[1:]) for i in range(sh[0])]
-    return NDArr(build(flat, shape), tuple(shape), a.dtype)
+    r = NDArr(build(flat, shape), tuple(shape), a.dtype)
+    if flat:  # the model's arrays are contiguous: reshape / ravel is a view
+        r.view_from(a, build(NDArr(a.index_paths(), a.shape, "O").flat(), shape))
+    return r
 
 
 def np_sum(interp, a, axis=None):
@@ -1095,6 +1101,34 @@ def _np_array(interp, args, kwargs):
     return to_ndarr(interp, args[0], dtype)
 
 
+def _np_asarray(interp, args, kwargs):
+    """np.asarray / asanyarray / ascontiguousarray: an ndarray of the requested dtype is returned as it is (same object,
+    no copy); everything else is converted like np.array (the model's arrays are always contiguous)"""
+    dtype = kwargs.get("dtype", args[1] if len(args) > 1 else None)
+    if type(args[0]) is NDArr and (dtype is None or _dtype_kind(dtype) == args[0].dtype):
+        return args[0]
+    return to_ndarr(interp, args[0], dtype)
+
+
+def nd_inplace(interp, opcls, a, b):
+    """a op= b on an ndarray: the result is written into a's own elements (and through a's bases), a stays the same object"""
+    r = nd_binop(interp, opcls, a, b)
+    if type(r) is not NDArr or r.shape != a.shape:
+        raise PyExc(ValueError, ("non-broadcastable output operand with shape %s doesn't match the broadcast shape %s" % (a.shape, getattr(r, "shape", ())),))
+    if a.dtype != r.dtype and (a.dtype, r.dtype) != ("f", "i") and (a.dtype, r.dtype) != ("f", "b") and (a.dtype, r.dtype) != ("i", "b"):
+        raise PyExc(TypeError, ("Cannot cast ufunc output from dtype %r to dtype %r with casting rule 'same_kind'" % (r.dtype, a.dtype),))
+    if not a.shape:
+        raise Unsupported("in-place operation on a 0-d array")
+    import itertools
+
+    for path in itertools.product(*[range(n) for n in a.shape]):
+        d = r.data
+        for i in path:
+            d = d[i]
+        a.poke(path, _cast_elem(d, a.dtype))
+    return a
+
+
 def _np_zeros(fill):
     def model(interp, args, kwargs):
         shape = args[0]
@@ -1533,7 +1567,9 @@ def build_models():
         math.fabs: lambda it, a, k: ops.mabs(a[0]) if type(a[0]) is Sym else math.fabs(a[0]),
         math.isclose: lambda it, a, k: _np_isclose(it, a, {"rtol": k.get("rel_tol", 1e-09), "atol": k.get("abs_tol", 0.0)}),
         np.array: _np_array,
-        np.asarray: _np_array,
+        np.asarray: _np_asarray,
+        np.asanyarray: _np_asarray,
+        np.ascontiguousarray: _np_asarray,
         np.zeros_like: _np_like(0.0),
         np.ones_like: _np_like(1.0),
         np.empty_like: _np_like(0.0),
@@ -1579,6 +1615,8 @@ def build_models():
         np.arctan2: lambda it, a, k: ops.matan2(it.ctx, a[0], a[1], True) if (type(a[0]) is Sym or type(a[1]) is Sym) else np.arctan2(a[0], a[1]),
         np.hypot: lambda it, a, k: ops.mhypot(it.ctx, a[0], a[1], True) if (type(a[0]) is Sym or type(a[1]) is Sym) else np.hypot(a[0], a[1]),
         np.fmod: _np_fmod,
+        np.rad2deg: _elementwise(lambda it, x: Sym(real_term(x) * 180 / PI, np.float64), np.rad2deg),
+        np.deg2rad: _elementwise(lambda it, x: Sym(real_term(x) * PI / 180, np.float64), np.deg2rad),
         np.format_float_positional: _np_format_float_positional,
         np.greater_equal: _np_cmp(ast.GtE),
         np.less_equal: _np_cmp(ast.LtE),
